@@ -171,7 +171,17 @@ fn case(sub: &str, id: u64, r: &mut Report) {
     let mut p = Prng::new(id);
     let kind = p.below(8) as usize;
     // same public read position for both instances
-    let reads = match kind { 1 | 2 => p.below(40), 3..=6 => p.below(600), _ => p.below(20) } as usize;
+    // read positions: mostly early, sometimes far into the stream (more than one
+    // HC-128 table cycle / 64 blocks; more than 65536 words)
+    let reads = match (kind, p.below(8)) {
+        (1 | 2, 0) => 1000 + p.below(200),
+        (1 | 2, 1) => 65_500 + p.below(100),
+        (1 | 2, _) => p.below(40),
+        (3..=6, 0) => 65_500 + p.below(600),
+        (3..=6, _) => p.below(600),
+        (0, 0) => 70_000 + p.below(10),
+        _ => p.below(20),
+    } as usize;
     let half = p.chance(1, 2);
     // special secrets against random ones: the all-zero seed (remapped to a
     // preset), the preset itself, all-ones, small integers
